@@ -5,6 +5,7 @@
 pub mod common;
 pub mod text;
 pub mod gen_codepages;
+pub mod c08;
 pub mod c10;
 pub mod c12;
 pub mod c13;
